@@ -150,6 +150,38 @@ def run(ctx):
             val = sig[0].partition(b":")[2]
             spec_lines += ["spec.dkim_delete_b\t" + hx(val)]
             spec_meta.append((i, "delb", None, val, t.get("b", b"")))
+    # ---- a message that already carries a signature is signed again (itself, or a clone of it) with the other body canonicalization:
+    #      both signatures verify, the second signing adds one field and changes nothing else
+    rbodies = [b"one  two \r\n\tthree\r\n", b"a \t b\r\n\r\n\r\n", b"plain\r\n", b"trailing blank \r\nno final newline \t", b" \r\n"]
+    rlines, rmeta = [], []
+    for alg in ("rsa", "ed"):
+        for hc in "sr":
+            for b1, b2 in (("s", "r"), ("r", "s"), ("r", "r")):
+                for body in rbodies:
+                    for cl in "01":
+                        rlines.append("dkim.resign\t%s\t%s\t%s\t%s\t%s\t%s" % (alg, hc, b1, b2, hx(body), cl)); rmeta.append((alg, hc, b1, b2, body, cl))
+    if ctx.tier == "quick":
+        keep = sorted(rng.sample(range(len(rlines)), 40))
+        rlines, rmeta = [rlines[k] for k in keep], [rmeta[k] for k in keep]
+    for line, meta, r in zip(rlines, rmeta, run_impl(rlines)):
+        ctx.count()
+        if not r.startswith("ok\t"):
+            obad.append((-1, "re-signing failed: %s (%r)" % (r[:80], meta))); continue
+        first, second = unhx(r.split("\t")[1]), unhx(r.split("\t")[2])
+        hb2, body2 = split_msg(second)
+        f2 = V.split_fields(hb2)
+        sigs = [x for x in f2 if x.lower().startswith(b"dkim-signature:")]
+        hb1, body1 = split_msg(first)
+        f1 = V.split_fields(hb1)
+        nosig = lambda fs: [x for x in fs if not x.lower().startswith(b"dkim-signature:")]
+        # (a header map holds one field per name: the new signature takes the place of the old one)
+        if len(sigs) not in (1, 2) or nosig(f2) != nosig(f1) or body2 != body1:
+            obad.append((-1, "signing an already signed message changed something other than DKIM-Signature fields (%r)" % (meta,))); continue
+        ok2, why2, _ = V.verify(second, keys(), which=0)
+        ok1, why1, _ = V.verify(first, keys())
+        if not ok1 or not ok2:
+            obad.append((-1, "signature of an already signed message (first %s, then %s body canonicalization, %s%s): %s" % (meta[2], meta[3], meta[0], ", on a clone" if meta[5] == "1" else "", why2 if not ok2 else why1)))
+    ctx.cov["oracle"]["resigned_messages"] = {"cases": len(rlines)}
     out = run_model(spec_lines)
     pos = 0
     ncert = {"blocks": 0, "certified": 0, "uncertified_samples": []}
